@@ -85,6 +85,50 @@ theorem split_count (l : List Int) (cuts : List Nat) : (splitAtCuts l cuts).leng
   | nil => rfl
   | cons c cs ih => simp [splitFrom, ih]
 
+/-! ### split points in any order: every piece carries the timestamps of ITS OWN rows -/
+theorem sliceL_zip {α β : Type} (a : List α) (b : List β) (i j : Nat) :
+    sliceL (a.zip b) i j = (sliceL a i j).zip (sliceL b i j) := by
+  simp only [sliceL, List.zip, List.drop_zipWith, List.take_zipWith]
+
+/-- **splitting the series = splitting the index and the data by the same rule, piece by piece** — for any split points (increasing, repeated,
+stepping back, past the end): piece k of the series pairs piece k of the timestamps with piece k of the rows -/
+theorem npSplit_zip {α β : Type} (ts : List α) (ds : List β) (cuts : List Nat) :
+    npSplit (ts.zip ds) cuts = List.zipWith List.zip (npSplit ts cuts) (npSplit ds cuts) := by
+  unfold npSplit
+  generalize 0 = prev
+  induction cuts generalizing prev with
+  | nil => simp only [npSplitFrom, List.zip, List.drop_zipWith, List.zipWith_cons_cons, List.zipWith_nil_right]
+  | cons c cs ih => simp [npSplitFrom, sliceL_zip, ih]
+
+theorem npSplit_count {α : Type} (l : List α) (cuts : List Nat) : (npSplit l cuts).length = cuts.length + 1 := by
+  unfold npSplit
+  generalize 0 = prev
+  induction cuts generalizing prev with
+  | nil => rfl
+  | cons c cs ih => simp [npSplitFrom, ih]
+
+/-- on increasing split points the general rule is the consecutive-slices rule of `splitAtCuts` (hence a partition, `split_partition`) -/
+theorem npSplit_eq_splitAtCuts_aux (l : List Int) (off : Nat) (cuts : List Nat) (h : (off :: cuts).Pairwise (· ≤ ·)) :
+    npSplitFrom l off cuts = splitFrom off (l.drop off) cuts := by
+  induction cuts generalizing off with
+  | nil => simp [npSplitFrom, splitFrom]
+  | cons c cs ih =>
+    have hoc : off ≤ c := (List.pairwise_cons.1 h).1 c (by simp)
+    have htail : (c :: cs).Pairwise (· ≤ ·) := (List.pairwise_cons.1 h).2
+    simp only [npSplitFrom, splitFrom, sliceL]
+    rw [ih c htail, List.drop_drop]
+    have : off + (c - off) = c := by omega
+    rw [this]
+
+theorem npSplit_eq_splitAtCuts (l : List Int) (cuts : List Nat) (h : cuts.Pairwise (· ≤ ·)) :
+    npSplit l cuts = splitAtCuts l cuts := by
+  unfold npSplit splitAtCuts
+  have := npSplit_eq_splitAtCuts_aux l 0 cuts (List.pairwise_cons.2 ⟨fun _ _ => Nat.zero_le _, h⟩)
+  simpa using this
+
+/-- split points stepping back: an empty piece, then rows 2..4 again — the rule NumPy applies -/
+example : npSplit [10, 11, 12, 13, 14, 15, 16] [5, 2, 6] = [[10, 11, 12, 13, 14], [], [12, 13, 14, 15], [16]] := by decide
+
 /-- **concatenation along time succeeds only for strictly increasing, non-overlapping timestamps** -/
 theorem concat_accepts_iff (ts : List (List Int)) :
     concatAccepts ts = true ↔ ts.flatten.Pairwise (· < ·) := by
